@@ -190,6 +190,30 @@ def handleC (j : Json) : Json :=
       ("perm", toJson ((List.finRange k).map fun jj => (perm jj).val)),
       ("transform", toJson (cmatToBits tf)), ("inverse", toJson (cmatToBits (rotInverse F tf))),
       ("uses_inverse", Gen.rotatorSingleUsesInverse (getInt j "power"))]
+  | "pop" =>
+    -- POP without PCA: real data X (n×p, as complex with zero imaginary part); oracles Cinv, eigen-pairs (lam, P), 2×2 pinvs, arg(lam)
+    let n := getNat j "n"; let p := getNat j "p"; let k := getNat j "k"
+    let X := cmatOfBits n p (getStrArr j "X"); let Cinv := cmatOfBits p p (getStrArr j "Cinv")
+    let P := cmatOfBits p k (getStrArr j "P")
+    let lamB := getStrArr j "lam"
+    let lam : Fin k → CF := fun i => cfOfBits lamB i.val
+    let argA := (getStrArr j "arg").map bitsToFloat
+    let argLam : Fin k → Float := fun i => argA[i.val]!
+    let mi := (getStrArr j "Minv").map bitsToFloat
+    let Minv : Fin k → Float × Float × Float × Float := fun i => (mi[4 * i.val]!, mi[4 * i.val + 1]!, mi[4 * i.val + 2]!, mi[4 * i.val + 3]!)
+    let twoPi := bitsToFloat (getStr j "two_pi")
+    let A : Mat p p CF := popFeedback X Cinv
+    let Z : Mat n k CF := popCoeff X P Minv
+    let nr : Fin k → Float := popNorms Z
+    let idx : List (Fin k) := (List.finRange k).mergeSort (fun a b => nr a ≥ nr b)
+    let perm : Fin k → Fin k := fun jj => idx.getD jj.val jj
+    let F : PopFit n p k Float CF := popFit X lam argLam twoPi P Minv perm
+    let sys := (List.finRange k).map fun jj => let t := popSystem (ρ := Float) P jj; [floatToBits t.1, floatToBits t.2.1, floatToBits t.2.2]
+    Json.mkObj [("status", "ok"), ("A", toJson (cmatToBits A)), ("gram0", toJson (cmatToBits (lagZeroGram X))),
+      ("comps", toJson (cmatToBits F.comps)), ("scores", toJson (cmatToBits F.scores)),
+      ("eigenvalues", toJson (((List.finRange k).map fun jj => [floatToBits (F.eigenvalues jj).re, floatToBits (F.eigenvalues jj).im]).flatten)),
+      ("norms", toJson (vecToBits F.norms)), ("damping", toJson (vecToBits F.damping)), ("periods", toJson (vecToBits F.periods)),
+      ("perm", toJson ((List.finRange k).map fun jj => (perm jj).val)), ("systems", toJson sys)]
   | _ => Json.mkObj [("status", "bad-request")]
 
 def handle (j : Json) : Json :=
